@@ -177,7 +177,9 @@ def replay_case(h, case, strict=True, check_ops=True, check_parse=True):
     if not a:
         # a recorded deviation of the code?  then the code-faithful machine predicts the observation
         devs = case.get("devs") or []
-        if devs and agrees(case["code"], obs):
+        # ... or, past the deviation, the machine runs into a don't-care (`true && inc == inc`: the unchecked right
+        # operand, then a comparison of functions) and predicts nothing: still that deviation's doing
+        if devs and (agrees(case["code"], obs) or case["code"]["k"] == "unm"):
             return {"status": "known", "key": "dev:" + "+".join(sorted(devs)), "text": text,
                     "detail": {"observed": _show(obs), "expected": _show_spec(exp)}}
         return {"status": "violation", "key": "value", "text": text, "kind": "value",
